@@ -62,42 +62,43 @@ def mw_table(ctx, rep):
                 if not op:
                     rep.bad(R, "verdict-ignored:" + hook, s.where, "path [%s] does not look at the verdict" % p.describe())
                     continue
-                verdict = op[0].lstrip("*")
+                verdicts = op[0].lstrip("*").split("|")  # a wildcard arm may stand for several verdicts
             else:
-                verdict = "Err"
-            seen.add(verdict)
-            cont = (tgt == h)
-            fw = _flag_writes(body, p, flags, ctx.lr(body).flags.tested)
-            errs = [e for e in p.calls() if e.site is not None and A.event(e.site) == "ON_ERROR"]
-            key = "%s:%s" % (hook, verdict)
-            where = ctx.where(body, p.blocks[-2] if len(p.blocks) > 1 else s.bb)
-            # other calls touching the effects vector
-            if eff_param is not None:
-                touch = [e for e in p.calls()[1:] if any(strip_wrap(a) == strip_wrap(eff_param) for a in e.args)]
-                st_touch = [e for e in p.events if e.kind == "store" and any(x == strip_wrap(eff_param) for x in subterms(e.target))]
-                rep.check(not touch and not st_touch, R, "store-leaves-effects-alone:" + key, where, "the store does not modify the effects vector after %s" % verdict,
-                          "after %s the store itself calls %s on the effects vector" % (verdict, [e.ck.split("::")[-1] for e in touch]))
-            want_flag = (verdict == "DoneAction" and GUARDED[hook] is not None)
-            want_cont = verdict != "BreakChain"
-            want_err = 1 if verdict == "Err" else 0
-            if verdict in ("ContinueAction", "DoneAction", "BreakChain", "Err"):
-                rep.check(cont == want_cont, R, "flow:" + key, where, "%s: %s" % (verdict, "next middleware" if want_cont else "leaves the hook loop"),
-                          "%s: %s (documented: %s)" % (verdict, "goes on with the next middleware" if cont else "leaves the hook loop: later middlewares are skipped", "next middleware" if want_cont else "leave the loop"))
-                good_f = ((len(fw) == 1 and fw[0][1] is False) if want_flag else not fw)
-                rep.check(good_f, R, "flags:" + key, where, "%s: %s" % (verdict, "clears its phase flag" if want_flag else "no flag changed"), "%s: flag writes %s (documented: %s)" % (verdict, _names(body, fw), "flag := false" if want_flag else "none"))
-                good_e = len(errs) == want_err
-                if good_e and errs:
-                    good_e = strip_wrap(errs[0].args[0]) == strip_wrap(bp.arg_term(s.bb, 0)) and errs[0].args[1] == ("vfield", call, "Err", 0)
-                rep.check(good_e, R, "on_error:" + key, where, "%s: %s" % (verdict, "error handed once to the same middleware's on_error" if want_err else "on_error not called"),
-                          "%s: %d on_error call(s) %s" % (verdict, len(errs), [term_str(e.args[0]) + "," + term_str(e.args[1]) for e in errs]))
-                if want_flag and len(fw) == 1:
-                    done_flags.add(fw[0][0])
-                if verdict == "BreakChain" and not cont:
-                    normal = {b for (a, b) in [(a, b) for a in blks for b in cfg.succ[a] if b not in blks] if _is_exhaustion_exit(body, bp, a)}
-                    join = _joins(cfg, tgt, normal)
-                    rep.check(join, R, "break-leaves-only-this-loop:" + hook, where, "BreakChain continues where the exhausted loop continues", "BreakChain jumps somewhere else than the end of this hook loop")
-            else:
-                rep.bad(R, "unknown-verdict:%s" % key, where, "unrecognised verdict arm %s" % verdict)
+                verdicts = ["Err"]
+            for verdict in verdicts:
+                seen.add(verdict)
+                cont = (tgt == h)
+                fw = _flag_writes(body, p, flags, ctx.lr(body).flags.tested)
+                errs = [e for e in p.calls() if e.site is not None and A.event(e.site) == "ON_ERROR"]
+                key = "%s:%s" % (hook, verdict)
+                where = ctx.where(body, p.blocks[-2] if len(p.blocks) > 1 else s.bb)
+                # other calls touching the effects vector
+                if eff_param is not None:
+                    touch = [e for e in p.calls()[1:] if any(strip_wrap(a) == strip_wrap(eff_param) for a in e.args)]
+                    st_touch = [e for e in p.events if e.kind == "store" and any(x == strip_wrap(eff_param) for x in subterms(e.target))]
+                    rep.check(not touch and not st_touch, R, "store-leaves-effects-alone:" + key, where, "the store does not modify the effects vector after %s" % verdict,
+                              "after %s the store itself calls %s on the effects vector" % (verdict, [e.ck.split("::")[-1] for e in touch]))
+                want_flag = (verdict == "DoneAction" and GUARDED[hook] is not None)
+                want_cont = verdict != "BreakChain"
+                want_err = 1 if verdict == "Err" else 0
+                if verdict in ("ContinueAction", "DoneAction", "BreakChain", "Err"):
+                    rep.check(cont == want_cont, R, "flow:" + key, where, "%s: %s" % (verdict, "next middleware" if want_cont else "leaves the hook loop"),
+                              "%s: %s (documented: %s)" % (verdict, "goes on with the next middleware" if cont else "leaves the hook loop: later middlewares are skipped", "next middleware" if want_cont else "leave the loop"))
+                    good_f = ((len(fw) == 1 and fw[0][1] is False) if want_flag else not fw)
+                    rep.check(good_f, R, "flags:" + key, where, "%s: %s" % (verdict, "clears its phase flag" if want_flag else "no flag changed"), "%s: flag writes %s (documented: %s)" % (verdict, _names(body, fw), "flag := false" if want_flag else "none"))
+                    good_e = len(errs) == want_err
+                    if good_e and errs:
+                        good_e = strip_wrap(errs[0].args[0]) == strip_wrap(bp.arg_term(s.bb, 0)) and errs[0].args[1] == ("vfield", call, "Err", 0)
+                    rep.check(good_e, R, "on_error:" + key, where, "%s: %s" % (verdict, "error handed once to the same middleware's on_error" if want_err else "on_error not called"),
+                              "%s: %d on_error call(s) %s" % (verdict, len(errs), [term_str(e.args[0]) + "," + term_str(e.args[1]) for e in errs]))
+                    if want_flag and len(fw) == 1:
+                        done_flags.add(fw[0][0])
+                    if verdict == "BreakChain" and not cont:
+                        normal = {b for (a, b) in [(a, b) for a in blks for b in cfg.succ[a] if b not in blks] if _is_exhaustion_exit(body, bp, a)}
+                        join = _joins(cfg, tgt, normal)
+                        rep.check(join, R, "break-leaves-only-this-loop:" + hook, where, "BreakChain continues where the exhausted loop continues", "BreakChain jumps somewhere else than the end of this hook loop")
+                else:
+                    rep.bad(R, "unknown-verdict:%s" % key, where, "unrecognised verdict arm %s" % verdict)
         for v in ("ContinueAction", "DoneAction", "BreakChain", "Err"):
             rep.check(v in seen, R, "arm-present:%s:%s" % (hook, v), s.where, "%s has a %s arm" % (hook, v), "%s has no %s arm" % (hook, v))
         # MW2: the flag guards its phase and is initialised true in this pass
